@@ -41,6 +41,23 @@ Definition available_word (sty : styles) (cmds : list appcmd) (n : str) : Prop :
   infix_of n (vis sty H_AVAILABLE)
   \/ exists c, In c cmds /\ cmd_visible c = true /\ infix_of n (elem_vis sty (snd (cmd_line c))).
 
+(* decided (for concrete configurations: vm_compute) *)
+Definition commands_wordb (sty : styles) (subs : list sub) (n : str) : bool :=
+  infixb n (vis sty H_COMMANDS)
+  || existsb (fun sv => visible sv && existsb (fun x => infixb n (elem_vis sty (snd x))) (sub_block sv)) subs.
+Definition available_wordb (sty : styles) (cmds : list appcmd) (n : str) : bool :=
+  infixb n (vis sty H_AVAILABLE)
+  || existsb (fun c => cmd_visible c && infixb n (elem_vis sty (snd (cmd_line c)))) cmds.
+Lemma commands_word_decided sty subs n : commands_word sty subs n -> commands_wordb sty subs n = true.
+Proof.
+  unfold commands_wordb. intros [H|(sv & x & H1 & H2 & H3 & H4)]; apply orb_true_iff; [left; now apply infixb_spec|right].
+  apply existsb_exists. exists sv. split; [exact H1|]. rewrite H2. cbn [andb]. apply existsb_exists. exists x. split; [exact H3|now apply infixb_spec].
+Qed.
+Lemma available_word_decided sty cmds n : available_word sty cmds n -> available_wordb sty cmds n = true.
+Proof.
+  unfold available_wordb. intros [H|(c & H1 & H2 & H3)]; apply orb_true_iff; [left; now apply infixb_spec|right].
+  apply existsb_exists. exists c. split; [exact H1|]. rewrite H2. cbn [andb]. now apply infixb_spec.
+Qed.
 (* The COMMANDS section of a command page in the region: a piece s2 of the page that holds every enabled, named, non-hidden
    sub-command with its arguments and options, and in which every word (no white space in it) is a word of the heading or of the
    visible characters of an element of the block of such a sub-command - a hidden or disabled command contributes nothing. *)
